@@ -31,6 +31,25 @@ pub enum VKind {
 
 const TUPLES: &[[&str; 2]] = &[["a", "b"], ["a", "c"], ["ab", ""]];
 const LABELS: [&str; 2] = ["l1", "l2"];
+/// label values of the one-label vectors (every third case): the same boundary shapes, one position
+const TUPLES1: &[&str] = &["a", "ab", ""];
+
+/// number of variable labels of the vector of this case (no PRNG draw: schedules stay aligned)
+fn arity_of(case: u64) -> usize {
+    if case % 3 == 2 {
+        1
+    } else {
+        2
+    }
+}
+
+fn tuple(arity: usize, lv: usize) -> Vec<&'static str> {
+    if arity == 1 {
+        vec![TUPLES1[lv]]
+    } else {
+        TUPLES[lv].to_vec()
+    }
+}
 const NAME: &str = "c10_vec";
 
 #[derive(Clone, Debug)]
@@ -122,12 +141,13 @@ impl AnyChild {
 }
 
 impl AnyVec {
-    fn goc(&self, lv: usize, map_form: bool) -> AnyChild {
-        let t = TUPLES[lv];
+    fn goc(&self, arity: usize, lv: usize, map_form: bool) -> AnyChild {
+        let t = tuple(arity, lv);
         if map_form {
             let mut m = HashMap::new();
-            m.insert(LABELS[1], t[1]);
-            m.insert(LABELS[0], t[0]);
+            for i in (0..arity).rev() {
+                m.insert(LABELS[i], t[i]);
+            }
             match self {
                 AnyVec::C(v) => AnyChild::C(v.get_metric_with(&m).unwrap()),
                 AnyVec::G(v) => AnyChild::G(v.get_metric_with(&m).unwrap()),
@@ -141,12 +161,13 @@ impl AnyVec {
             }
         }
     }
-    fn remove(&self, lv: usize, map_form: bool) -> bool {
-        let t = TUPLES[lv];
+    fn remove(&self, arity: usize, lv: usize, map_form: bool) -> bool {
+        let t = tuple(arity, lv);
         if map_form {
             let mut m = HashMap::new();
-            m.insert(LABELS[0], t[0]);
-            m.insert(LABELS[1], t[1]);
+            for i in 0..arity {
+                m.insert(LABELS[i], t[i]);
+            }
             match self {
                 AnyVec::C(v) => v.remove(&m).is_ok(),
                 AnyVec::G(v) => v.remove(&m).is_ok(),
@@ -176,7 +197,7 @@ impl AnyVec {
     }
 }
 
-fn samples_of(kind: VKind, mfs: &[prometheus::proto::MetricFamily]) -> Vec<(Option<usize>, Option<u64>, String)> {
+fn samples_of(arity: usize, kind: VKind, mfs: &[prometheus::proto::MetricFamily]) -> Vec<(Option<usize>, Option<u64>, String)> {
     let mut out = Vec::new();
     for mf in mfs {
         if mf.name() != NAME {
@@ -185,7 +206,13 @@ fn samples_of(kind: VKind, mfs: &[prometheus::proto::MetricFamily]) -> Vec<(Opti
         for m in mf.get_metric() {
             // labels must be exactly k=v (const), l1, l2 in name order
             let ls: Vec<(&str, &str)> = m.get_label().iter().map(|l| (l.name(), l.value())).collect();
-            let lv = if ls.len() == 3 && ls[0] == ("k", "v") && ls[1].0 == LABELS[0] && ls[2].0 == LABELS[1] {
+            let lv = if arity == 1 {
+                if ls.len() == 2 && ls[0] == ("k", "v") && ls[1].0 == LABELS[0] {
+                    TUPLES1.iter().position(|t| *t == ls[1].1)
+                } else {
+                    None
+                }
+            } else if ls.len() == 3 && ls[0] == ("k", "v") && ls[1].0 == LABELS[0] && ls[2].0 == LABELS[1] {
                 TUPLES.iter().position(|t| t[0] == ls[1].1 && t[1] == ls[2].1)
             } else {
                 None
@@ -373,19 +400,19 @@ impl Model for VecModel<'_> {
     }
 }
 
-pub fn history_json(h: &[Rec<VRec>]) -> Json {
+pub fn history_json(arity: usize, h: &[Rec<VRec>]) -> Json {
     Json::Arr(
         h.iter()
             .map(|r| {
                 let what = match &r.op {
-                    VRec::Goc { lv, handle } => format!("h{} = get_or_create({:?})", handle, TUPLES[*lv]),
+                    VRec::Goc { lv, handle } => format!("h{} = get_or_create({:?})", handle, tuple(arity, *lv)),
                     VRec::Upd { handle, digit } => format!("h{} += 4^{}", handle, digit),
                     VRec::ReadH { handle, mask, raw } => format!("read h{} = {} digits {:?}", handle, raw, mask.map(mask_to_vec)),
-                    VRec::Remove { lv, ok } => format!("remove({:?}) -> {}", TUPLES[*lv], if *ok { "Ok" } else { "Err" }),
+                    VRec::Remove { lv, ok } => format!("remove({:?}) -> {}", tuple(arity, *lv), if *ok { "Ok" } else { "Err" }),
                     VRec::Reset => "reset()".into(),
                     VRec::Collect { samples } => format!(
                         "collect -> {:?}",
-                        samples.iter().map(|(lv, m, raw)| format!("{:?}: {} digits {:?}", lv.map(|i| TUPLES[i]), raw, m.map(mask_to_vec))).collect::<Vec<_>>()
+                        samples.iter().map(|(lv, m, raw)| format!("{:?}: {} digits {:?}", lv.map(|i| tuple(arity, i)), raw, m.map(mask_to_vec))).collect::<Vec<_>>()
                     ),
                 };
                 Json::Str(format!("t{} [{}..{}] {}", r.tid, r.call, r.ret, what))
@@ -398,19 +425,21 @@ pub fn run_case(job: &Job, case: u64, part: &mut Part, sequential: bool) {
     let mut rng = Rng::derive(job.seed, case.wrapping_mul(2).wrapping_add(if sequential { 0x5C10 } else { 0xC10 }));
     let sc = generate(&mut rng, job, sequential);
     let registry = Registry::new();
+    let arity = arity_of(case);
+    part.count(if arity == 1 { "one_label_vector_cases" } else { "two_label_vector_cases" }, 1);
     let vec = match sc.kind {
         VKind::IntCounter => {
-            let v = IntCounterVec::new(Opts::new(NAME, "h").const_label("k", "v"), &LABELS).unwrap();
+            let v = IntCounterVec::new(Opts::new(NAME, "h").const_label("k", "v"), &LABELS[..arity]).unwrap();
             registry.register(Box::new(v.clone())).unwrap();
             AnyVec::C(v)
         }
         VKind::Gauge => {
-            let v = GaugeVec::new(Opts::new(NAME, "h").const_label("k", "v"), &LABELS).unwrap();
+            let v = GaugeVec::new(Opts::new(NAME, "h").const_label("k", "v"), &LABELS[..arity]).unwrap();
             registry.register(Box::new(v.clone())).unwrap();
             AnyVec::G(v)
         }
         VKind::Histogram => {
-            let v = HistogramVec::new(HistogramOpts::new(NAME, "h").const_label("k", "v"), &LABELS).unwrap();
+            let v = HistogramVec::new(HistogramOpts::new(NAME, "h").const_label("k", "v"), &LABELS[..arity]).unwrap();
             registry.register(Box::new(v.clone())).unwrap();
             AnyVec::H(v)
         }
@@ -425,7 +454,7 @@ pub fn run_case(job: &Job, case: u64, part: &mut Part, sequential: bool) {
         for op in &sc.threads[tid] {
             match op {
                 VOp::Goc { lv, map_form, handle } => {
-                    let c = sinks.call(tid, || vec.goc(*lv, *map_form), |_| VRec::Goc { lv: *lv, handle: *handle });
+                    let c = sinks.call(tid, || vec.goc(arity, *lv, *map_form), |_| VRec::Goc { lv: *lv, handle: *handle });
                     *table[*handle].lock().unwrap() = Some(c);
                 }
                 VOp::Upd { handle, digit } => {
@@ -437,7 +466,7 @@ pub fn run_case(job: &Job, case: u64, part: &mut Part, sequential: bool) {
                     sinks.call(tid, || c.read(), |r| VRec::ReadH { handle: *handle, mask: r.0, raw: r.1.clone() });
                 }
                 VOp::Remove { lv, map_form } => {
-                    sinks.call(tid, || vec.remove(*lv, *map_form), |ok| VRec::Remove { lv: *lv, ok: *ok });
+                    sinks.call(tid, || vec.remove(arity, *lv, *map_form), |ok| VRec::Remove { lv: *lv, ok: *ok });
                 }
                 VOp::Reset => {
                     sinks.call(tid, || vec.reset(), |_| VRec::Reset);
@@ -445,7 +474,7 @@ pub fn run_case(job: &Job, case: u64, part: &mut Part, sequential: bool) {
                 VOp::Collect { gather } => {
                     sinks.call(
                         tid,
-                        || if *gather { samples_of(kind, &registry.gather()) } else { samples_of(kind, &vec.collect()) },
+                        || if *gather { samples_of(arity, kind, &registry.gather()) } else { samples_of(arity, kind, &vec.collect()) },
                         |s| VRec::Collect { samples: s.clone() },
                     );
                 }
@@ -462,7 +491,7 @@ pub fn run_case(job: &Job, case: u64, part: &mut Part, sequential: bool) {
     let mut history = sinks.into_history();
     // final: collect + read every handle
     let fin: Sinks<VRec> = Sinks::new(1);
-    fin.call(0, || samples_of(kind, &vec.collect()), |s| VRec::Collect { samples: s.clone() });
+    fin.call(0, || samples_of(arity, kind, &vec.collect()), |s| VRec::Collect { samples: s.clone() });
     if !sequential {
         for h in 0..sc.handles {
             if let Some(c) = table[h].lock().unwrap().clone() {
@@ -471,7 +500,7 @@ pub fn run_case(job: &Job, case: u64, part: &mut Part, sequential: bool) {
         }
     }
     history.extend(fin.into_history());
-    let detail = jobj! {"kind" => format!("{:?}", sc.kind), "sequential" => sequential, "history" => history_json(&history)};
+    let detail = jobj! {"kind" => format!("{:?}", sc.kind), "sequential" => sequential, "variable_labels" => arity as u64, "history" => history_json(arity, &history)};
     part.sample(3, detail.clone());
     if job.verbose {
         println!("{}", detail.to_string());
@@ -494,7 +523,7 @@ pub fn run_case(job: &Job, case: u64, part: &mut Part, sequential: bool) {
                         violation(part, job, case, "sample-labels-wrong", &site, format!("exported sample {} does not carry the declared label names with one of the requested tuples", raw), detail.clone());
                         direct_bad = true;
                     } else if seen.contains(lv) {
-                        violation(part, job, case, "label-values-exported-twice", &site, format!("one collection shows {:?} twice", lv.map(|i| TUPLES[i])), detail.clone());
+                        violation(part, job, case, "label-values-exported-twice", &site, format!("one collection shows {:?} twice", lv.map(|i| tuple(arity, i))), detail.clone());
                         direct_bad = true;
                     }
                     seen.push(*lv);
